@@ -2,3 +2,12 @@ REF = "z3 5.x + cvc5 1.4 python bindings as reference solvers (R1 agreement/cert
 CHECKS["C01"] = ("property-based differential testing (Hypothesis script generator vs z3+cvc5 with certified witness model)",
                  "Generated scripts over all 17 logics, option vectors and push/pop histories; every unsat answer is compared with certified reference verdicts. Exploration only: absence of a counterexample in the sampled space.",
                  REF, "DESIGN.md §4 C01")
+CHECKS["C02"] = ("property-based differential testing (Hypothesis generator with planted boundary shapes vs z3+cvc5 agreement)",
+                 "Generated scripts with completeness emphasis (LIA, difference logic with huge constants, arrays, UF+LA); every sat answer must not be refuted by both references. Exploration only.",
+                 REF, "DESIGN.md §4 C02")
+CHECKS["C04"] = ("property-based differential testing of generated command histories (incremental run vs fresh process per check-sat)",
+                 "Generated push/pop/assert/check-sat/query histories; each incremental answer is compared with a fresh solver on exactly the active assertions. Exploration only.",
+                 "opensmt itself as the fresh-solver oracle (its absolute correctness is C01/C02); our stack model of SMT-LIB push/pop", "DESIGN.md §4 C04")
+CHECKS["C05"] = ("metamorphic property-based testing (same generated script under K generated option vectors and logic embeddings)",
+                 "Generated scripts are each run under several generated configurations and wider logics; any sat/unsat contradiction is a violation. Exploration only.",
+                 "no external oracle needed for the alarm; references only attribute blame in the report", "DESIGN.md §4 C05")
